@@ -1,5 +1,1134 @@
 import FsModel.Mem
 import FsProofs.Lemmas.TreeLemmas
+import FsProofs.Lemmas.QueryLemmas
 namespace Fs.MemLemmas
-open Fs Fs.Ref
+open Fs Fs.Ref Fs.TreeLemmas
+set_option linter.unusedSimpArgs false
+set_option linter.unusedSectionVars false
+
+/-! ### basics -/
+
+theorem vpath_open (s : State) (p : Str) (hc : s.closed = false) : Mem.vpath s p = validate p := by
+  simp [Mem.vpath, hc]
+
+theorem split_last (cs : List Name) (hne : cs ≠ []) :
+    cs.dropLast ++ [cs.getLast?.getD []] = cs := by
+  rw [List.getLast?_eq_some_getLast hne]
+  exact List.dropLast_concat_getLast hne
+
+theorem last_mem (cs : List Name) (hne : cs ≠ []) : cs.getLast?.getD [] ∈ cs := by
+  rw [List.getLast?_eq_some_getLast hne]
+  exact List.getLast_mem hne
+
+theorem clean_ne_nil {c : Name} (h : cleanName c = true) : c ≠ [] := by
+  intro e; subst e; simp [cleanName] at h
+
+theorem last_ne_nil (cs : List Name) (hne : cs ≠ []) (hcl : ∀ c ∈ cs, cleanName c = true) :
+    cs.getLast?.getD [] ≠ [] :=
+  clean_ne_nil (hcl _ (last_mem cs hne))
+
+/-- the node at a non-root path, through the entry list of its parent directory -/
+theorem get_split (t : Node) (cs : List Name) (hne : cs ≠ []) :
+    t.get cs = match t.get cs.dropLast with
+      | some (.dir es) => Ents.lookup (cs.getLast?.getD []) es
+      | _ => none := by
+  conv => lhs; rw [← split_last cs hne]
+  rw [get_append]
+  cases h : t.get cs.dropLast with
+  | none => rfl
+  | some n =>
+    cases n with
+    | file b => simp [Node.get]
+    | dir es => simp [QueryLemmas.get_single_dir]
+
+theorem lookup_unclean (k : Name) (es : Ents) (hw : entsWf es = true) (hk : cleanName k = false) :
+    Ents.lookup k es = none := by
+  induction es with
+  | nil => rfl
+  | cons e es ih =>
+    obtain ⟨k', v⟩ := e
+    simp only [entsWf, Bool.and_eq_true] at hw
+    by_cases h : k' = k
+    · subst h; rw [hk] at hw; simp at hw
+    · simp [Ents.lookup, h, ih hw.2]
+
+theorem lookup_nil (es : Ents) (hw : entsWf es = true) : Ents.lookup [] es = none :=
+  lookup_unclean [] es hw (by simp [cleanName])
+
+theorem root_dir {t : Node} (hd : t.isDir = true) : ∃ es, t = .dir es := by
+  cases t with
+  | dir es => exact ⟨es, rfl⟩
+  | file b => simp [Node.isDir] at hd
+
+/-! ### entry lists: more algebra -/
+
+theorem put_put (c : Name) (v w : Node) (es : Ents) :
+    Ents.put c w (Ents.put c v es) = Ents.put c w es := by
+  induction es with
+  | nil => simp [Ents.put]
+  | cons e es ih =>
+    obtain ⟨k, x⟩ := e
+    by_cases h : k = c <;> simp [Ents.put, h, ih]
+
+theorem put_erase_comm (x y : Name) (v : Node) (es : Ents) (h : x ≠ y) :
+    Ents.put y v (Ents.erase x es) = Ents.erase x (Ents.put y v es) := by
+  induction es with
+  | nil => simp [Ents.put, Ents.erase, Ne.symm h]
+  | cons e es ih =>
+    obtain ⟨k, w⟩ := e
+    by_cases hx : k = x
+    · subst hx
+      simp [Ents.put, Ents.erase, h]
+    · by_cases hy : k = y
+      · subst hy
+        simp [Ents.put, Ents.erase, hx]
+      · simp [Ents.put, Ents.erase, hx, hy, ih]
+
+theorem put_put_comm (x y : Name) (n v : Node) (es : Ents) (h : x ≠ y)
+    (hx : (Ents.lookup x es).isSome = true) :
+    Ents.put x n (Ents.put y v es) = Ents.put y v (Ents.put x n es) := by
+  induction es with
+  | nil => simp [Ents.lookup] at hx
+  | cons e es ih =>
+    obtain ⟨k, w⟩ := e
+    by_cases hkx : k = x
+    · subst hkx
+      simp [Ents.put, h]
+    · by_cases hky : k = y
+      · subst hky
+        simp [Ents.put, hkx]
+      · simp only [Ents.lookup, hkx, if_false] at hx
+        simp [Ents.put, hkx, hky, ih hx]
+
+/-! ### set / del: more algebra -/
+
+theorem set_set (cs : List Name) (t v w : Node) : (t.set cs v).set cs w = t.set cs w := by
+  fun_induction Node.set cs t v with
+  | case1 n v => rfl
+  | case2 c es v => simp [Node.set, put_put]
+  | case3 c d cs es v ch hl ih =>
+    simp only [Node.set, lookup_put_same, hl, ih, put_put]
+  | case4 c d cs es v hl => rfl
+  | case5 c cs b v => rfl
+
+/-! ### one call, operation by operation -/
+
+/-- the situations of a component path in a tree -/
+inductive Sit (t : Node) (cs : List Name) : Prop
+  | root : cs = [] → Sit t cs
+  | noParent : cs ≠ [] → t.get cs.dropLast = none → t.get cs = none → Sit t cs
+  | fileParent (b : Bytes) : cs ≠ [] → t.get cs.dropLast = some (.file b) → t.get cs = none → Sit t cs
+  | missing (es : Ents) : cs ≠ [] → t.get cs.dropLast = some (.dir es) →
+      Ents.lookup (cs.getLast?.getD []) es = none → t.get cs = none → Sit t cs
+  | present (es : Ents) (n : Node) : cs ≠ [] → t.get cs.dropLast = some (.dir es) →
+      Ents.lookup (cs.getLast?.getD []) es = some n → t.get cs = some n → Sit t cs
+
+theorem sit (t : Node) (cs : List Name) : Sit t cs := by
+  by_cases hne : cs = []
+  · exact .root hne
+  · have hg := get_split t cs hne
+    cases hp : t.get cs.dropLast with
+    | none => simp only [hp] at hg; exact .noParent hne hp hg
+    | some n =>
+      cases n with
+      | file b => simp only [hp] at hg; exact .fileParent b hne hp hg
+      | dir es =>
+        simp only [hp] at hg
+        cases hl : Ents.lookup (cs.getLast?.getD []) es with
+        | none => rw [hl] at hg; exact .missing es hne hp hl hg
+        | some n => rw [hl] at hg; exact .present es n hne hp hl hg
+
+theorem mode_rb : parseBinMode ['r', 'b'] = some ⟨true, false, false, false, false, false⟩ := by decide
+theorem mode_wb : parseBinMode ['w', 'b'] = some ⟨false, true, true, true, false, false⟩ := by decide
+theorem mode_ab : parseBinMode ['a', 'b'] = some ⟨false, true, true, false, false, true⟩ := by decide
+
+theorem parse_facts (mode : Str) (m : Mode) (h : parseBinMode mode = some m) :
+    (m.exclusive = true → m.create = true) ∧ (m.truncate = true → m.create = true) := by
+  unfold parseBinMode at h
+  split at h
+  · cases h
+  · split at h
+    · cases h
+    · split at h
+      · cases h
+      · split at h
+        · cases h
+        · simp only [Option.some.injEq] at h
+          subst h
+          simp only [Bool.or_eq_true]
+          constructor
+          · intro h; exact Or.inr h
+          · rintro (h | h)
+            · exact Or.inl (Or.inr h)
+            · exact Or.inr h
+
+section
+variable (s : State) (p : Str) (cs : List Name) (hc : s.closed = false) (hv : validate p = .ok cs)
+  (hd : s.root.isDir = true) (hwf : s.root.wf = true)
+include hc hv
+
+theorem mem_listdir_eq :
+    Mem.listdir s p = match s.root.get cs with
+      | none => .err .ResourceNotFound
+      | some (.file _) => .err .DirectoryExpected
+      | some (.dir es) => .ok (Ents.names es) := by
+  simp only [Mem.listdir, vpath_open _ _ hc, hv]
+  cases h : s.root.get cs with
+  | none => rfl
+  | some n => cases n <;> rfl
+
+theorem mem_getinfo_eq :
+    Mem.getinfo s p = match s.root.get cs with
+      | none => .err .ResourceNotFound
+      | some (.dir _) => .ok (lastName cs, true, 0)
+      | some (.file b) => .ok (lastName cs, false, b.length) := by
+  simp only [Mem.getinfo, vpath_open _ _ hc, hv]
+  cases h : s.root.get cs with
+  | none => rfl
+  | some n => cases n <;> rfl
+
+theorem mem_exists_eq : Mem.exists_ s p = .ok (s.root.get cs).isSome := by
+  simp only [Mem.exists_, mem_getinfo_eq s p cs hc hv]
+  cases h : s.root.get cs with
+  | none => rfl
+  | some n => cases n <;> rfl
+
+theorem mem_exists : Mem.step s (.exists_ p) = step1 s cs (.exists_ p) := by
+  simp only [Mem.step, Mem.exists_, mem_getinfo_eq s p cs hc hv, step1]
+  cases h : s.root.get cs with
+  | none => rfl
+  | some n => cases n <;> rfl
+
+theorem mem_isdir : Mem.step s (.isdir p) = step1 s cs (.isdir p) := by
+  simp only [Mem.step, Mem.isdir, mem_getinfo_eq s p cs hc hv, step1]
+  cases h : s.root.get cs with
+  | none => rfl
+  | some n => cases n <;> rfl
+
+theorem mem_isfile : Mem.step s (.isfile p) = step1 s cs (.isfile p) := by
+  simp only [Mem.step, Mem.isfile, mem_getinfo_eq s p cs hc hv, step1]
+  cases h : s.root.get cs with
+  | none => rfl
+  | some n => cases n <;> rfl
+
+theorem mem_getsize : Mem.step s (.getsize p) = step1 s cs (.getsize p) := by
+  simp only [Mem.step, mem_getinfo_eq s p cs hc hv, step1]
+  cases h : s.root.get cs with
+  | none => rfl
+  | some n => cases n <;> rfl
+
+theorem mem_gettype : Mem.step s (.gettype p) = step1 s cs (.gettype p) := by
+  simp only [Mem.step, mem_getinfo_eq s p cs hc hv, step1]
+  cases h : s.root.get cs with
+  | none => rfl
+  | some n => cases n <;> rfl
+
+theorem mem_getinfo : Mem.step s (.getinfo p) = step1 s cs (.getinfo p) := by
+  simp only [Mem.step, mem_getinfo_eq s p cs hc hv, step1]
+  cases h : s.root.get cs with
+  | none => rfl
+  | some n => cases n <;> rfl
+
+theorem mem_listdir : Mem.step s (.listdir p) = step1 s cs (.listdir p) := by
+  simp only [Mem.step, mem_listdir_eq s p cs hc hv, step1]
+  cases h : s.root.get cs with
+  | none => rfl
+  | some n => cases n <;> rfl
+
+theorem mem_isempty : Mem.step s (.isempty p) = step1 s cs (.isempty p) := by
+  simp only [Mem.step, Mem.isempty, mem_listdir_eq s p cs hc hv, step1]
+  cases h : s.root.get cs with
+  | none => rfl
+  | some n => cases n <;> simp [Mem.liftRes, Ents.names, done, fail]
+
+theorem mem_settimes : Mem.step s (.settimes p) = step1 s cs (.settimes p) := by
+  simp [Mem.step, Mem.setinfo, vpath_open _ _ hc, hv, step1]
+
+theorem mem_makedir (r : Bool) : Mem.step s (.makedir p r) = step1 s cs (.makedir p r) := by
+  simp only [Mem.step, Mem.makedir, vpath_open _ _ hc, hv, step1, Mem.splitc, parentOf]
+  rcases sit s.root cs with h | ⟨hne, hp, hg⟩ | ⟨b, hne, hp, hg⟩ | ⟨es, hne, hp, hl, hg⟩ | ⟨es, n, hne, hp, hl, hg⟩
+  · simp [h]
+  · simp [hne, hp, hg]
+  · simp [hne, hp, hg]
+  · simp [hne, hp, hg, hl]
+  · cases n <;> cases r <;> simp [hne, hp, hg, hl]
+
+
+/-- the code agrees with the reference: same result, or both fail and the code's class is one
+of the listed (truthful) ones -/
+def Agree (A : List Err) (s : State) (m r : State × Out) : Prop :=
+  m = r ∨ ∃ e e', m = (s, .err e) ∧ r.2 = .err e' ∧ e ∈ A
+
+
+include hd hwf
+
+theorem mem_remove :
+    Agree (adm1 s.root cs (.remove p)) s (Mem.step s (.remove p)) (step1 s cs (.remove p)) := by
+  have hcl := validate_clean p cs hv
+  simp only [Mem.step, Mem.remove, vpath_open _ _ hc, hv, step1, Mem.splitc, Mem.contains, Mem.isDirAt]
+  rcases sit s.root cs with h | ⟨hne, hp, hg⟩ | ⟨b, hne, hp, hg⟩ | ⟨es, hne, hp, hl, hg⟩ | ⟨es, n, hne, hp, hl, hg⟩
+  · subst h
+    obtain ⟨es, hr⟩ := root_dir hd
+    have hl := lookup_nil es (by simpa [hr, Node.wf] using hwf)
+    right
+    refine ⟨.ResourceNotFound, .FileExpected, ?_, ?_, ?_⟩
+    · simp [hr, Node.get, hl, fail]
+    · simp [fail]
+    · simp [adm1, admFileArg]
+  · left; simp [hne, hp, hg]
+  · left; simp [hne, hp, hg]
+  · left; simp [hne, hp, hg, hl]
+  · left; cases n <;> simp [hne, hp, hg, hl]
+
+
+theorem mem_removetree : Mem.step s (.removetree p) = step1 s cs (.removetree p) := by
+  simp only [Mem.step, Mem.removetree, vpath_open _ _ hc, hv, step1, Mem.splitc, Mem.contains, Mem.isDirAt]
+  rcases sit s.root cs with h | ⟨hne, hp, hg⟩ | ⟨b, hne, hp, hg⟩ | ⟨es, hne, hp, hl, hg⟩ | ⟨es, n, hne, hp, hl, hg⟩
+  · simp [h]
+  · simp [hne, hp, hg]
+  · simp [hne, hp, hg]
+  · simp [hne, hp, hg, hl]
+  · cases n <;> simp [hne, hp, hg, hl]
+
+theorem mem_removedir : Mem.step s (.removedir p) = step1 s cs (.removedir p) := by
+  simp only [Mem.step, Mem.removedir, Mem.isempty, mem_listdir_eq s p cs hc hv, Mem.removetree,
+    vpath_open _ _ hc, hv, step1, Mem.splitc, Mem.contains, Mem.isDirAt]
+  rcases sit s.root cs with h | ⟨hne, hp, hg⟩ | ⟨b, hne, hp, hg⟩ | ⟨es, hne, hp, hl, hg⟩ | ⟨es, n, hne, hp, hl, hg⟩
+  · simp [h]
+  · simp [hne, hp, hg]
+  · simp [hne, hp, hg]
+  · simp [hne, hp, hg, hl]
+  · rcases n with b | ds
+    · simp [hne, hp, hg, hl]
+    · cases ds <;> simp [hne, hp, hg, hl, Ents.names]
+
+theorem mem_readbytes : Mem.step s (.readbytes p) = step1 s cs (.readbytes p) := by
+  have hcl := validate_clean p cs hv
+  simp only [Mem.step, Mem.readbytes, Mem.openbin, mode_rb, vpath_open _ _ hc, hv, step1, Mem.splitc]
+  rcases sit s.root cs with h | ⟨hne, hp, hg⟩ | ⟨b, hne, hp, hg⟩ | ⟨es, hne, hp, hl, hg⟩ | ⟨es, n, hne, hp, hl, hg⟩
+  · subst h
+    obtain ⟨es, hr⟩ := root_dir hd
+    simp [hr, Node.get]
+  · simp [last_ne_nil cs hne hcl, hp, hg]
+  · simp [last_ne_nil cs hne hcl, hp, hg]
+  · simp [last_ne_nil cs hne hcl, hp, hg, hl]
+  · cases n <;> simp [last_ne_nil cs hne hcl, hp, hg, hl, done]
+
+theorem mem_writebytes (d : Bytes) : Mem.step s (.writebytes p d) = step1 s cs (.writebytes p d) := by
+  have hcl := validate_clean p cs hv
+  simp only [Mem.step, Mem.writebytes, Mem.openbin, mode_wb, vpath_open _ _ hc, hv, step1, Mem.splitc,
+    writeFile, parentOf]
+  rcases sit s.root cs with h | ⟨hne, hp, hg⟩ | ⟨b, hne, hp, hg⟩ | ⟨es, hne, hp, hl, hg⟩ | ⟨es, n, hne, hp, hl, hg⟩
+  · subst h
+    simp
+  · simp [last_ne_nil cs hne hcl, hne, hp, hg]
+  · simp [last_ne_nil cs hne hcl, hne, hp, hg]
+  · simp [last_ne_nil cs hne hcl, hne, hp, hg, hl, upd, set_set]
+  · cases n <;> simp [last_ne_nil cs hne hcl, hne, hp, hg, hl, upd, set_set]
+
+theorem mem_appendbytes (d : Bytes) : Mem.step s (.appendbytes p d) = step1 s cs (.appendbytes p d) := by
+  have hcl := validate_clean p cs hv
+  simp only [Mem.step, Mem.appendbytes, Mem.openbin, mode_ab, vpath_open _ _ hc, hv, step1, Mem.splitc,
+    writeFile, parentOf]
+  rcases sit s.root cs with h | ⟨hne, hp, hg⟩ | ⟨b, hne, hp, hg⟩ | ⟨es, hne, hp, hl, hg⟩ | ⟨es, n, hne, hp, hl, hg⟩
+  · subst h
+    simp
+  · simp [last_ne_nil cs hne hcl, hne, hp, hg]
+  · simp [last_ne_nil cs hne hcl, hne, hp, hg]
+  · simp [last_ne_nil cs hne hcl, hne, hp, hg, hl, upd, set_set, get_set_same cs s.root _ es hne hp]
+  · cases n <;> simp [last_ne_nil cs hne hcl, hne, hp, hg, hl, upd, set_set]
+
+theorem mem_create (w : Bool) : Mem.step s (.create p w) = step1 s cs (.create p w) := by
+  have hcl := validate_clean p cs hv
+  simp only [Mem.step, Mem.create, mem_exists_eq s p cs hc hv, Mem.openbin, mode_wb, vpath_open _ _ hc, hv,
+    step1, Mem.splitc, writeFile, parentOf]
+  rcases sit s.root cs with h | ⟨hne, hp, hg⟩ | ⟨b, hne, hp, hg⟩ | ⟨es, hne, hp, hl, hg⟩ | ⟨es, n, hne, hp, hl, hg⟩
+  · subst h
+    cases w <;> simp [Node.get]
+  · cases w <;> simp [last_ne_nil cs hne hcl, hne, hp, hg]
+  · cases w <;> simp [last_ne_nil cs hne hcl, hne, hp, hg]
+  · cases w <;> simp [last_ne_nil cs hne hcl, hne, hp, hg, hl, upd, done]
+  · cases n <;> cases w <;> simp [last_ne_nil cs hne hcl, hne, hp, hg, hl, upd, done]
+
+theorem mem_touch : Mem.step s (.touch p) = step1 s cs (.touch p) := by
+  have hcl := validate_clean p cs hv
+  simp only [Mem.step, Mem.touch, Mem.create, mem_exists_eq s p cs hc hv, Mem.openbin, mode_wb, Mem.setinfo,
+    vpath_open _ _ hc, hv, step1, Mem.splitc, writeFile, parentOf]
+  rcases sit s.root cs with h | ⟨hne, hp, hg⟩ | ⟨b, hne, hp, hg⟩ | ⟨es, hne, hp, hl, hg⟩ | ⟨es, n, hne, hp, hl, hg⟩
+  · subst h
+    simp [Node.get, done, vpath_open _ _ hc, hv]
+  · simp [last_ne_nil cs hne hcl, hne, hp, hg, fail]
+  · simp [last_ne_nil cs hne hcl, hne, hp, hg, fail]
+  · simp [last_ne_nil cs hne hcl, hne, hp, hg, hl, upd, done]
+  · simp [last_ne_nil cs hne hcl, hne, hp, hg, hl, upd, done, vpath_open _ _ hc, hv]
+
+
+theorem mem_openbin (mode : Str) (m : Mode) (hm : parseBinMode mode = some m) :
+    Agree (adm1 s.root cs (.openbin p mode)) s (Mem.step s (.openbin p mode))
+      (step1 s cs (.openbin p mode)) := by
+  have hcl := validate_clean p cs hv
+  obtain ⟨hf1, hf2⟩ := parse_facts mode m hm
+  simp only [Mem.step, Mem.openbin, hm, vpath_open _ _ hc, hv, step1, Mem.splitc, parentOf]
+  rcases sit s.root cs with h | ⟨hne, hp, hg⟩ | ⟨b, hne, hp, hg⟩ | ⟨es, hne, hp, hl, hg⟩ | ⟨es, n, hne, hp, hl, hg⟩
+  · subst h
+    left; simp
+  · left; simp [last_ne_nil cs hne hcl, hne, hp, hg]
+  · left; simp [last_ne_nil cs hne hcl, hne, hp, hg]
+  · left
+    cases hcr : m.create <;> simp [last_ne_nil cs hne hcl, hne, hp, hg, hl, hcr, upd, done]
+  · obtain ⟨rd, wr, cr, tr, ex, ap⟩ := m
+    simp only at hf1 hf2
+    rcases n with b | ds
+    · left
+      cases cr <;> cases ex <;> cases tr <;> simp_all [last_ne_nil cs hne hcl, upd, done, fail]
+    · cases ex
+      · left
+        cases cr <;> cases tr <;> simp_all [last_ne_nil cs hne hcl, upd, done, fail]
+      · right
+        have hcr : cr = true := hf1 rfl
+        subst hcr
+        refine ⟨.FileExists, .FileExpected, ?_, ?_, ?_⟩
+        · simp [last_ne_nil cs hne hcl, hne, hp, hg, hl, fail]
+        · simp [hne, hp, hg, fail]
+        · simp [adm1, hm, kindAt, hg]
+
+end
+section
+variable (s : State) (sp dp : Str) (a b : List Name) (hc : s.closed = false)
+  (hva : validate sp = .ok a) (hvb : validate dp = .ok b)
+  (hd : s.root.isDir = true) (hwf : s.root.wf = true)
+include hc hva hvb hd hwf
+
+theorem mem_move (o : Bool) :
+    Agree (adm2 s.root a b (.move sp dp o)) s (Mem.step s (.move sp dp o))
+      (step2 s a b (.move sp dp o)) := by
+  have hcla := validate_clean sp a hva
+  have hclb := validate_clean dp b hvb
+  obtain ⟨res, hr⟩ := root_dir hd
+  have hln := lookup_nil res (by simpa [hr, Node.wf] using hwf)
+  have hroot : s.root.get [] = some (.dir res) := by simp [hr, Node.get]
+  simp only [Mem.step, Mem.move, vpath_open _ _ hc, hva, hvb, step2, Mem.splitc, Mem.contains, parentOf]
+  rcases sit s.root a with h | ⟨hne, hp, hg⟩ | ⟨x, hne, hp, hg⟩ | ⟨es, hne, hp, hl, hg⟩ | ⟨es, n, hne, hp, hl, hg⟩
+  · subst h
+    right
+    refine ⟨.ResourceNotFound, .FileExpected, ?_, ?_, ?_⟩
+    · simp [hroot, hln, fail]
+    · simp [hroot, fail]
+    · simp [adm2, admFileArg]
+  · left; simp [hne, hp, hg]
+  · left; simp [hne, hp, hg]
+  · left; simp [hne, hp, hg, hl]
+  · rcases n with data | ds
+    · rcases sit s.root b with h' | ⟨hne', hp', hg'⟩ | ⟨x', hne', hp', hg'⟩ | ⟨es', hne', hp', hl', hg'⟩ | ⟨es', n', hne', hp', hl', hg'⟩
+      · subst h'
+        cases o
+        · right
+          refine ⟨.FileExpected, .DestinationExists, ?_, ?_, ?_⟩
+          · simp [hne, hp, hg, hl, hroot, hln, fail]
+          · simp [hg, hroot, fail]
+          · simp [adm2, admFileTarget, hne]
+        · left
+          simp [hne, hp, hg, hl, hroot, hln, fail]
+      · have hab : a ≠ b := by rintro rfl; rw [hg] at hg'; cases hg'
+        left; simp [hne, hp, hg, hl, hne', hp', hg', hab]
+      · have hab : a ≠ b := by rintro rfl; rw [hg] at hg'; cases hg'
+        left; simp [hne, hp, hg, hl, hne', hp', hg', hab]
+      · have hab : a ≠ b := by rintro rfl; rw [hg] at hg'; cases hg'
+        left; simp [hne, hp, hg, hl, hne', hp', hg', hl', hab, last_ne_nil b hne' hclb]
+      · left
+        by_cases hab : a = b
+        · subst hab
+          cases o <;> simp [hne, hp, hg, hl, fail, done]
+        · cases o <;> cases n' <;>
+            simp [hne, hp, hg, hl, hne', hp', hg', hl', hab, last_ne_nil b hne' hclb]
+    · left; simp [hne, hp, hg, hl]
+
+end
+
+section
+variable (s : State) (sp dp : Str) (a b : List Name) (hc : s.closed = false)
+  (hva : validate sp = .ok a) (hvb : validate dp = .ok b)
+  (hd : s.root.isDir = true) (hwf : s.root.wf = true)
+include hc hva hvb hd hwf
+
+theorem mem_copy (o : Bool) :
+    Mem.step s (.copy sp dp o) = step2 s a b (.copy sp dp o) := by
+  have hcla := validate_clean sp a hva
+  have hclb := validate_clean dp b hvb
+  obtain ⟨res, hr⟩ := root_dir hd
+  have hroot : s.root.get [] = some (.dir res) := by simp [hr, Node.get]
+  simp only [Mem.step, Mem.copy, Mem.openbin, mode_rb, mode_wb, vpath_open _ _ hc, hva, hvb, step2,
+    Mem.splitc, parentOf]
+  by_cases h1 : (!o && (s.root.get b).isSome) = true
+  · simp [h1]
+  · by_cases hab : a = b
+    · simp [h1, hab]
+    · simp only [h1, hab, if_false, Bool.false_eq_true]
+      rcases sit s.root a with h | ⟨hne, hp, hg⟩ | ⟨x, hne, hp, hg⟩ | ⟨es, hne, hp, hl, hg⟩ | ⟨es, n, hne, hp, hl, hg⟩
+      · subst h
+        simp [hroot]
+      · simp [last_ne_nil a hne hcla, hne, hp, hg]
+      · simp [last_ne_nil a hne hcla, hne, hp, hg]
+      · simp [last_ne_nil a hne hcla, hne, hp, hg, hl]
+      · rcases n with data | ds
+        · rcases sit s.root b with h' | ⟨hne', hp', hg'⟩ | ⟨x', hne', hp', hg'⟩ | ⟨es', hne', hp', hl', hg'⟩ | ⟨es', n', hne', hp', hl', hg'⟩
+          · subst h'
+            simp [last_ne_nil a hne hcla, hne, hp, hg, hl]
+          · simp [last_ne_nil a hne hcla, hne, hp, hg, hl, last_ne_nil b hne' hclb, hne', hp', hg']
+          · simp [last_ne_nil a hne hcla, hne, hp, hg, hl, last_ne_nil b hne' hclb, hne', hp', hg']
+          · simp [last_ne_nil a hne hcla, hne, hp, hg, hl, last_ne_nil b hne' hclb, hne', hp', hg', hl', upd, set_set]
+          · cases n' <;>
+            simp [last_ne_nil a hne hcla, hne, hp, hg, hl, last_ne_nil b hne' hclb, hne', hp', hg', hl', upd, set_set]
+        · simp [last_ne_nil a hne hcla, hne, hp, hg, hl]
+
+end
+
+/-! ### paths that do not interfere -/
+
+/-- deleting at `a` does not change what is read at a path incomparable with `a` -/
+theorem get_del_other (a b : List Name) (t : Node) (h1 : ¬ a <+: b) (h2 : ¬ b <+: a) :
+    (t.del a).get b = t.get b := by
+  fun_induction Node.del a t generalizing b with
+  | case1 n => exact absurd List.nil_prefix h1
+  | case2 c es =>
+    cases b with
+    | nil => exact absurd List.nil_prefix h2
+    | cons c' bs =>
+      have hne : c' ≠ c := by
+        rintro rfl; exact h1 (List.cons_prefix_cons.2 ⟨rfl, List.nil_prefix⟩)
+      simp only [Node.get, lookup_erase_other _ _ _ hne]
+  | case3 c d cs es ch hl ih =>
+    cases b with
+    | nil => exact absurd List.nil_prefix h2
+    | cons c' bs =>
+      by_cases hne : c' = c
+      · subst hne
+        simp only [Node.get, lookup_put_same, hl]
+        exact ih bs (fun h => h1 (List.cons_prefix_cons.2 ⟨rfl, h⟩))
+          (fun h => h2 (List.cons_prefix_cons.2 ⟨rfl, h⟩))
+      · simp only [Node.get, lookup_put_other _ _ _ _ hne]
+  | case4 c d cs es hl => rfl
+  | case5 c cs b' => rfl
+
+/-- writing at `b` and deleting at `a` commute when neither path is a prefix of the other -/
+theorem set_del_comm (a b : List Name) (t v : Node) (h1 : ¬ a <+: b) (h2 : ¬ b <+: a) :
+    (t.set b v).del a = (t.del a).set b v := by
+  induction a generalizing b t with
+  | nil => exact absurd List.nil_prefix h1
+  | cons x as ih =>
+    cases b with
+    | nil => exact absurd List.nil_prefix h2
+    | cons y bs =>
+      cases t with
+      | file d => cases as <;> cases bs <;> simp [Node.set, Node.del]
+      | dir es =>
+        by_cases hxy : x = y
+        · subst hxy
+          have h1' : ¬ as <+: bs := fun h => h1 (List.cons_prefix_cons.2 ⟨rfl, h⟩)
+          have h2' : ¬ bs <+: as := fun h => h2 (List.cons_prefix_cons.2 ⟨rfl, h⟩)
+          cases as with
+          | nil => exact absurd List.nil_prefix h1'
+          | cons a1 as' =>
+            cases bs with
+            | nil => exact absurd List.nil_prefix h2'
+            | cons b1 bs' =>
+              cases hl : Ents.lookup x es with
+              | none => simp [Node.set, Node.del, hl]
+              | some ch =>
+                simp only [Node.set, Node.del, hl, lookup_put_same, put_put]
+                rw [ih (b1 :: bs') ch h1' h2']
+        · have hyx : y ≠ x := fun h => hxy h.symm
+          cases as with
+          | nil =>
+            cases bs with
+            | nil => simp [Node.set, Node.del, put_erase_comm x y v es hxy]
+            | cons b1 bs' =>
+              cases hl : Ents.lookup y es with
+              | none => simp [Node.set, Node.del, hl, lookup_erase_other _ _ _ hyx]
+              | some ch =>
+                simp [Node.set, Node.del, hl, lookup_erase_other _ _ _ hyx, put_erase_comm x y _ es hxy]
+          | cons a1 as' =>
+            cases bs with
+            | nil =>
+              cases hl : Ents.lookup x es with
+              | none => simp [Node.set, Node.del, hl, lookup_put_other _ _ _ _ hxy]
+              | some ch =>
+                simp [Node.set, Node.del, hl, lookup_put_other _ _ _ _ hxy,
+                  put_put_comm x y _ v es hxy (by simp [hl])]
+            | cons b1 bs' =>
+              cases hlx : Ents.lookup x es with
+              | none =>
+                cases hly : Ents.lookup y es with
+                | none => simp [Node.set, Node.del, hlx, hly]
+                | some chy =>
+                  simp [Node.set, Node.del, hlx, hly, lookup_put_other _ _ _ _ hxy]
+              | some chx =>
+                cases hly : Ents.lookup y es with
+                | none =>
+                  simp [Node.set, Node.del, hlx, hly, lookup_put_other _ _ _ _ hyx]
+                | some chy =>
+                  simp [Node.set, Node.del, hlx, hly, lookup_put_other _ _ _ _ hyx,
+                    lookup_put_other _ _ _ _ hxy, put_put_comm x y _ _ es hxy (by simp [hlx])]
+
+
+section
+variable (s : State) (sp dp : Str) (a b : List Name) (hc : s.closed = false)
+  (hva : validate sp = .ok a) (hvb : validate dp = .ok b)
+  (hd : s.root.isDir = true) (hwf : s.root.wf = true)
+include hc hva hvb hd hwf
+
+theorem mem_movedir (c : Bool) (hk : ¬ (b <+: a ∧ a ≠ b)) :
+    Mem.step s (.movedir sp dp c) = step2 s a b (.movedir sp dp c) := by
+  have hcla := validate_clean sp a hva
+  have hclb := validate_clean dp b hvb
+  simp only [Mem.step, Mem.movedir, vpath_open _ _ hc, hva, hvb, step2, Mem.splitc, Mem.contains, parentOf]
+  by_cases hab : a = b
+  · simp [hab]
+  · by_cases hpre : isPrefix a b = true
+    · simp [hab, hpre]
+    · have hnab : ¬ a <+: b := fun h => hpre ((isPrefix_iff a b).2 h)
+      have hnba : ¬ b <+: a := fun h => hk ⟨h, hab⟩
+      have hane : a ≠ [] := by rintro rfl; exact hnab List.nil_prefix
+      have hbne : b ≠ [] := by rintro rfl; exact hnba List.nil_prefix
+      simp only [hab, hpre, if_false, Bool.false_eq_true]
+      rcases sit s.root a with h | ⟨hne, hp, hg⟩ | ⟨x, hne, hp, hg⟩ | ⟨es, hne, hp, hl, hg⟩ | ⟨es, n, hne, hp, hl, hg⟩
+      · exact absurd h hane
+      · simp [hp, hg]
+      · simp [hp, hg]
+      · simp [hp, hg, hl]
+      · rcases n with data | ds
+        · simp [hp, hg, hl]
+        · rcases sit s.root b with h' | ⟨hne', hp', hg'⟩ | ⟨x', hne', hp', hg'⟩ | ⟨es', hne', hp', hl', hg'⟩ | ⟨es', n', hne', hp', hl', hg'⟩
+          · exact absurd h' hbne
+          · cases c <;> simp [hp, hg, hl, hbne, hp', hg']
+          · cases c <;> simp [hp, hg, hl, hbne, hp', hg']
+          · cases c <;> simp [hp, hg, hl, hbne, hp', hg', hl']
+          · simp only [hp, hg, hl, hbne, hp', hg', hl', Mem.baseMovedir, vpath_open _ _ hc, hva, hvb, hab, hpre,
+              Mem.makedir, Mem.splitc, get_del_other a b s.root hnab hnba]
+            rcases n' with data' | ds'
+            · simp [fail]
+            · simp only [Option.isSome_some, Bool.or_true, if_true, Option.isNone_some, Bool.and_false,
+                Bool.false_eq_true, if_false, Bool.not_true, done, hg']
+              cases hm : mergeEnts ds ds' with
+              | none => simp
+              | some m => simp [setAt, hbne, set_del_comm a b s.root _ hnab hnba]
+
+end
+
+/-! ### makedirs: the missing intermediate directories -/
+
+theorem snoc_induction {α : Type} {P : List α → Prop} (h0 : P [])
+    (hs : ∀ l a, P l → P (l ++ [a])) : ∀ l, P l := by
+  have key : ∀ r : List α, P r.reverse := by
+    intro r
+    induction r with
+    | nil => exact h0
+    | cons a r ih => rw [List.reverse_cons]; exact hs _ _ ih
+  intro l
+  have := key l.reverse
+  rwa [List.reverse_reverse] at this
+
+/-- the prefixes of `cs`, longest first (the argument of the walk in `get_intermediate_dirs`) -/
+def prefixesRev (cs : List Name) : List (List Name) :=
+  (List.range (cs.length + 1)).reverse.map fun i => cs.take i
+
+theorem prefixesRev_nil : prefixesRev [] = [[]] := by decide
+
+theorem prefixesRev_snoc (cs : List Name) (c : Name) :
+    prefixesRev (cs ++ [c]) = (cs ++ [c]) :: prefixesRev cs := by
+  unfold prefixesRev
+  have : (cs ++ [c]).length + 1 = (cs.length + 1) + 1 := by simp
+  rw [this, List.range_succ, List.reverse_append]
+  simp only [List.reverse_cons, List.reverse_nil, List.nil_append, List.cons_append, List.map_cons]
+  congr 1
+  · have : cs.length + 1 = (cs ++ [c]).length := by simp
+    rw [this, List.take_length]
+  · apply List.map_congr_left
+    intro i hi
+    simp only [List.mem_reverse, List.mem_range] at hi
+    exact List.take_append_of_le_length (by omega)
+
+theorem go_nil (s : State) (acc : List (List Name)) : Mem.intermediateDirs.go s [] acc = .ok acc := by
+  simp [Mem.intermediateDirs.go]
+
+theorem go_cons_none (s : State) (pre : List Name) (rest acc : List (List Name))
+    (h : s.root.get pre = none) :
+    Mem.intermediateDirs.go s (pre :: rest) acc = Mem.intermediateDirs.go s rest (pre :: acc) := by
+  simp [Mem.intermediateDirs.go, h]
+
+theorem go_cons_dir (s : State) (pre : List Name) (rest acc : List (List Name)) (es : Ents)
+    (h : s.root.get pre = some (.dir es)) :
+    Mem.intermediateDirs.go s (pre :: rest) acc = .ok acc := by
+  simp [Mem.intermediateDirs.go, h]
+
+theorem go_cons_file (s : State) (pre : List Name) (rest acc : List (List Name)) (b : Bytes)
+    (h : s.root.get pre = some (.file b)) :
+    Mem.intermediateDirs.go s (pre :: rest) acc = .err .DirectoryExpected := by
+  simp [Mem.intermediateDirs.go, h]
+
+theorem go_acc (s : State) (L acc : List (List Name)) :
+    Mem.intermediateDirs.go s L acc = (Mem.intermediateDirs.go s L []).map (· ++ acc) := by
+  induction L generalizing acc with
+  | nil => simp [go_nil, Res.map]
+  | cons pre rest ih =>
+    cases h : s.root.get pre with
+    | none =>
+      rw [go_cons_none s pre rest acc h, go_cons_none s pre rest [] h, ih (pre :: acc), ih [pre]]
+      cases Mem.intermediateDirs.go s rest [] <;> simp [Res.map]
+    | some n =>
+      cases n with
+      | file b => rw [go_cons_file s pre rest acc b h, go_cons_file s pre rest [] b h]; rfl
+      | dir es => rw [go_cons_dir s pre rest acc es h, go_cons_dir s pre rest [] es h]; rfl
+
+/-- the walk of `get_intermediate_dirs` on the prefixes of `cs` -/
+def walk (s : State) (cs : List Name) : Res (List (List Name)) :=
+  Mem.intermediateDirs.go s (prefixesRev cs) []
+
+theorem intermediateDirs_eq (s : State) (cs : List Name) :
+    Mem.intermediateDirs s cs = (walk s cs).map List.dropLast := by
+  unfold Mem.intermediateDirs walk prefixesRev
+  cases Mem.intermediateDirs.go s _ [] <;> rfl
+
+theorem walk_nil (s : State) (es : Ents) (h : s.root = .dir es) : walk s [] = .ok [] := by
+  rw [walk, prefixesRev_nil, go_cons_dir s [] [] [] es (by simp [h, Node.get])]
+
+theorem walk_snoc_none (s : State) (cs : List Name) (c : Name) (h : s.root.get (cs ++ [c]) = none) :
+    walk s (cs ++ [c]) = (walk s cs).map (· ++ [cs ++ [c]]) := by
+  rw [walk, prefixesRev_snoc, go_cons_none _ _ _ _ h, go_acc]; rfl
+
+theorem walk_snoc_dir (s : State) (cs : List Name) (c : Name) (es : Ents)
+    (h : s.root.get (cs ++ [c]) = some (.dir es)) : walk s (cs ++ [c]) = .ok [] := by
+  rw [walk, prefixesRev_snoc, go_cons_dir _ _ _ _ es h]
+
+theorem walk_snoc_file (s : State) (cs : List Name) (c : Name) (b : Bytes)
+    (h : s.root.get (cs ++ [c]) = some (.file b)) : walk s (cs ++ [c]) = .err .DirectoryExpected := by
+  rw [walk, prefixesRev_snoc, go_cons_file _ _ _ _ b h]
+
+/-! ### mkdirs, from the other end -/
+
+theorem mkdirs_snoc_none (pre cs : List Name) (c : Name) (t : Node)
+    (h : (mkdirs pre cs t).get (pre ++ cs ++ [c]) = none) :
+    mkdirs pre (cs ++ [c]) t = (mkdirs pre cs t).set (pre ++ cs ++ [c]) (.dir []) := by
+  induction cs generalizing pre t with
+  | nil =>
+    simp only [mkdirs, List.append_nil, List.nil_append] at h ⊢
+    simp [h]
+  | cons d cs ih =>
+    simp only [List.cons_append, mkdirs] at h ⊢
+    have e : pre ++ d :: cs ++ [c] = pre ++ [d] ++ cs ++ [c] := by simp
+    rw [e] at h ⊢
+    exact ih _ _ h
+
+theorem mkdirs_id (pre cs : List Name) (t x : Node) (h : t.get (pre ++ cs) = some x) :
+    mkdirs pre cs t = t := by
+  induction cs generalizing pre with
+  | nil => rfl
+  | cons c cs ih =>
+    have e : pre ++ c :: cs = pre ++ [c] ++ cs := by simp
+    rw [e] at h
+    obtain ⟨y, hy⟩ := get_prefix_some _ _ _ _ h
+    simp only [mkdirs, hy]
+    exact ih _ h
+
+theorem get_set_none (cs q : List Name) (t v : Node) (hv : ∀ c r, v.get (c :: r) = none)
+    (hq : t.get q = none) (hne : q ≠ cs) :
+    (t.set cs v).get q = none := by
+  fun_induction Node.set cs t v generalizing q with
+  | case1 n v => exact hq
+  | case2 c es v =>
+    cases q with
+    | nil => simp [Node.get] at hq
+    | cons c' qs =>
+      by_cases hc : c' = c
+      · subst hc
+        cases qs with
+        | nil => exact absurd rfl hne
+        | cons q1 qs => simp only [Node.get, lookup_put_same]; exact hv q1 qs
+      · simp only [Node.get, lookup_put_other _ _ _ _ hc] at hq ⊢
+        exact hq
+  | case3 c d cs es v ch hl ih =>
+    cases q with
+    | nil => simp [Node.get] at hq
+    | cons c' qs =>
+      by_cases hc : c' = c
+      · subst hc
+        simp only [Node.get, hl] at hq
+        simp only [Node.get, lookup_put_same]
+        exact ih qs hv hq (by rintro rfl; exact hne rfl)
+      · simp only [Node.get, lookup_put_other _ _ _ _ hc] at hq ⊢
+        exact hq
+  | case4 c d cs es v hl => exact hq
+  | case5 c cs b v => exact hq
+
+theorem mkdirs_get_none (pre cs q : List Name) (t : Node) (hq : t.get q = none)
+    (hlen : (pre ++ cs).length < q.length) : (mkdirs pre cs t).get q = none := by
+  induction cs generalizing pre t with
+  | nil => exact hq
+  | cons c cs ih =>
+    simp only [mkdirs]
+    apply ih
+    · split
+      · apply get_set_none _ _ _ _ (by intro c r; simp [Node.get, Ents.lookup]) hq
+        rintro rfl
+        simp at hlen
+      · exact hq
+    · simpa using hlen
+
+/-! ### blockedByFile, from the other end -/
+
+def isFileAt (t : Node) (q : List Name) : Bool :=
+  match t.get q with
+  | some (.file _) => true
+  | _ => false
+
+theorem blocked_snoc (t : Node) (pre cs : List Name) (c : Name) :
+    blockedByFile t pre (cs ++ [c]) = (blockedByFile t pre cs || isFileAt t (pre ++ cs)) := by
+  induction cs generalizing pre with
+  | nil =>
+    simp only [List.nil_append, blockedByFile, isFileAt, List.append_nil, Bool.false_or]
+    cases t.get pre with
+    | none => rfl
+    | some n => cases n <;> rfl
+  | cons d cs ih =>
+    simp only [List.cons_append, blockedByFile]
+    have e : pre ++ d :: cs = pre ++ [d] ++ cs := by simp
+    rw [e, if_neg (by simp), ih]
+    cases cs with
+    | nil => simp [blockedByFile, isFileAt]
+    | cons x xs => simp [Bool.or_assoc]
+
+theorem not_blocked_of_get (t x : Node) (pre cs : List Name) (h : t.get (pre ++ cs) = some x) :
+    blockedByFile t pre cs = false := by
+  induction cs generalizing pre with
+  | nil => simp [blockedByFile]
+  | cons c cs ih =>
+    obtain ⟨es, he⟩ := get_prefix_dir _ _ _ _ _ h
+    have e : pre ++ c :: cs = pre ++ [c] ++ cs := by simp
+    rw [e] at h
+    simp [blockedByFile, he, ih _ h]
+
+
+/-! ### what the walk returns -/
+
+def mk (t : Node) (d : List Name) : Node := t.set d (.dir [])
+
+theorem isFileAt_false_of_none {t : Node} {q : List Name} (h : t.get q = none) : isFileAt t q = false := by
+  simp [isFileAt, h]
+
+theorem isFileAt_false_of_dir {t : Node} {q : List Name} {es : Ents} (h : t.get q = some (.dir es)) :
+    isFileAt t q = false := by
+  simp [isFileAt, h]
+
+theorem isFileAt_of_file {t : Node} {q : List Name} {b : Bytes} (h : t.get q = some (.file b)) :
+    isFileAt t q = true := by
+  simp [isFileAt, h]
+
+theorem walk_spec (s : State) (hd : s.root.isDir = true) : ∀ cs : List Name,
+    ((blockedByFile s.root [] cs = true ∨ isFileAt s.root cs = true) →
+      walk s cs = .err .DirectoryExpected) ∧
+    (∀ es, s.root.get cs = some (.dir es) → walk s cs = .ok []) ∧
+    (blockedByFile s.root [] cs = false → s.root.get cs = none →
+      ∃ l, walk s cs = .ok (l ++ [cs]) ∧ l.foldl mk s.root = mkdirs [] cs.dropLast s.root ∧
+        mkdirs [] cs s.root = (mkdirs [] cs.dropLast s.root).set cs (.dir [])) := by
+  obtain ⟨res, hr⟩ := root_dir hd
+  apply snoc_induction
+  · refine ⟨?_, ?_, ?_⟩
+    · simp [blockedByFile, isFileAt, hr, Node.get]
+    · intro es _; exact walk_nil s res hr
+    · intro _ h; simp [Node.get] at h
+  · intro cs' c ⟨iha, ihb, ihc⟩
+    have hsnoc := blocked_snoc s.root [] cs' c
+    simp only [List.nil_append] at hsnoc
+    have hnone : s.root.get (cs' ++ [c]) = none →
+        (mkdirs [] cs' s.root).get (cs' ++ [c]) = none := fun h =>
+      mkdirs_get_none [] cs' _ s.root h (by simp)
+    refine ⟨?_, ?_, ?_⟩
+    · intro h
+      cases hg : s.root.get (cs' ++ [c]) with
+      | none =>
+        rw [walk_snoc_none s cs' c hg, iha ?_]
+        · rfl
+        · rw [hsnoc, isFileAt_false_of_none hg] at h
+          simpa using h
+      | some n =>
+        cases n with
+        | file b => exact walk_snoc_file s cs' c b hg
+        | dir es =>
+          exfalso
+          obtain ⟨es', he⟩ := get_prefix_dir cs' c [] s.root _ hg
+          have hb := not_blocked_of_get s.root _ [] cs' (by simpa using he)
+          rw [hsnoc, hb, isFileAt_false_of_dir he, isFileAt_false_of_dir hg] at h
+          simp at h
+    · intro es hg; exact walk_snoc_dir s cs' c es hg
+    · intro hbl hg
+      rw [hsnoc, Bool.or_eq_false_iff] at hbl
+      obtain ⟨hbl', hnf⟩ := hbl
+      rw [walk_snoc_none s cs' c hg, List.dropLast_concat]
+      have h3 : mkdirs [] (cs' ++ [c]) s.root = (mkdirs [] cs' s.root).set (cs' ++ [c]) (.dir []) := by
+        have := mkdirs_snoc_none [] cs' c s.root (by simpa using hnone hg)
+        simpa using this
+      cases hg' : s.root.get cs' with
+      | none =>
+        obtain ⟨l', h1, h2, h3'⟩ := ihc hbl' hg'
+        refine ⟨l' ++ [cs'], ?_, ?_, h3⟩
+        · rw [h1]; rfl
+        · rw [List.foldl_append, h2, h3']; rfl
+      | some n =>
+        cases n with
+        | file b => rw [isFileAt_of_file hg'] at hnf; cases hnf
+        | dir es' =>
+          refine ⟨[], ?_, ?_, h3⟩
+          · rw [ihb es' hg']; rfl
+          · rw [mkdirs_id [] cs' s.root _ (by simpa using hg')]; rfl
+
+
+section
+variable (s : State) (p : Str) (cs : List Name) (hc : s.closed = false) (hv : validate p = .ok cs)
+  (hd : s.root.isDir = true) (hwf : s.root.wf = true)
+include hc hv hd
+
+theorem makedirs_blocked (r : Bool)
+    (hb : blockedByFile s.root [] cs = true ∨ isFileAt s.root cs = true) :
+    Mem.makedirs s p r = fail s .DirectoryExpected := by
+  simp [Mem.makedirs, hc, hv, intermediateDirs_eq, (walk_spec s hd cs).1 hb, Res.map]
+
+theorem makedirs_dir (r : Bool) (es : Ents) (hg : s.root.get cs = some (.dir es)) :
+    Mem.makedirs s p r = if r then done s else fail s .DirectoryExists := by
+  obtain ⟨root, closed⟩ := s
+  simp only at hc hg hd
+  subst hc
+  have hw := (walk_spec ⟨root, false⟩ hd cs).2.1 es hg
+  have hc0 : (⟨root, false⟩ : State).closed = false := rfl
+  simp only [Mem.makedirs, hv, intermediateDirs_eq, hw, Res.map,
+    List.dropLast_nil, List.foldl_nil, Bool.false_eq_true, if_false]
+  have hmk : Mem.makedir ⟨root, false⟩ p false = fail ⟨root, false⟩ .DirectoryExists := by
+    simp only [Mem.makedir, vpath_open ⟨root, false⟩ p hc0, hv, Mem.splitc]
+    rcases sit root cs with h | ⟨hne, hp, hg'⟩ | ⟨b, hne, hp, hg'⟩ | ⟨es', hne, hp, hl, hg'⟩ | ⟨es', n, hne, hp, hl, hg'⟩
+    · simp [h]
+    · rw [hg] at hg'; cases hg'
+    · rw [hg] at hg'; cases hg'
+    · rw [hg] at hg'; cases hg'
+    · simp [hne, hp, hl]
+  rw [hmk]
+  cases r
+  · simp [fail]
+  · simp [fail, Mem.opendirCheck, mem_getinfo_eq ⟨root, false⟩ p cs hc0 hv, hg, done]
+
+theorem makedirs_new (r : Bool) (hbl : blockedByFile s.root [] cs = false)
+    (hg : s.root.get cs = none) :
+    Mem.makedirs s p r = upd s (mkdirs [] cs s.root) := by
+  obtain ⟨l, h1, h2, h3⟩ := (walk_spec s hd cs).2.2 hbl hg
+  have hne : cs ≠ [] := by rintro rfl; simp [Node.get] at hg
+  obtain ⟨res, hr⟩ := root_dir hd
+  -- the parent of `cs` after the intermediate directories were made
+  have hnf : ∀ b, s.root.get ([] ++ cs.dropLast) ≠ some (.file b) := by
+    intro b hb
+    have := blocked_snoc s.root [] cs.dropLast (cs.getLast?.getD [])
+    rw [split_last cs hne, hbl, isFileAt_of_file (by simpa using hb)] at this
+    simp at this
+  have hbl' : blockedByFile s.root [] cs.dropLast = false := by
+    have := blocked_snoc s.root [] cs.dropLast (cs.getLast?.getD [])
+    rw [split_last cs hne, hbl] at this
+    simpa using (Bool.or_eq_false_iff.1 this.symm).1
+  obtain ⟨es', hpar⟩ := mkdirs_get [] cs.dropLast s.root res (by simp [hr, Node.get]) hbl' hnf
+  simp only [List.nil_append] at hpar
+  have hnone : (mkdirs [] cs.dropLast s.root).get cs = none :=
+    mkdirs_get_none [] cs.dropLast cs s.root hg (by
+      simp only [List.nil_append, List.length_dropLast]
+      have : cs.length ≠ 0 := by simpa using hne
+      omega)
+  have hlk : Ents.lookup (cs.getLast?.getD []) es' = none := by
+    have := get_split (mkdirs [] cs.dropLast s.root) cs hne
+    rw [hnone, hpar] at this
+    exact this.symm
+  have hfold : List.foldl (fun t d => Node.set d t (Node.dir [])) s.root l =
+      mkdirs [] cs.dropLast s.root := h2
+  simp only [Mem.makedirs, hc, hv, intermediateDirs_eq, h1, Res.map, List.dropLast_concat, hfold,
+    Bool.false_eq_true, if_false]
+  simp only [Mem.makedir, Mem.vpath, hc, hv, Mem.splitc, hne, hpar, hlk, if_false, Bool.false_eq_true,
+    upd, done, h3]
+
+
+theorem mkdirs_new_get (hbl : blockedByFile s.root [] cs = false) (hg : s.root.get cs = none) :
+    (mkdirs [] cs s.root).get cs = some (.dir []) := by
+  obtain ⟨l, h1, h2, h3⟩ := (walk_spec s hd cs).2.2 hbl hg
+  have hne : cs ≠ [] := by rintro rfl; simp [Node.get] at hg
+  obtain ⟨res, hr⟩ := root_dir hd
+  have hnf : ∀ b, s.root.get ([] ++ cs.dropLast) ≠ some (.file b) := by
+    intro b hb
+    have := blocked_snoc s.root [] cs.dropLast (cs.getLast?.getD [])
+    rw [split_last cs hne, hbl, isFileAt_of_file (by simpa using hb)] at this
+    simp at this
+  have hbl' : blockedByFile s.root [] cs.dropLast = false := by
+    have := blocked_snoc s.root [] cs.dropLast (cs.getLast?.getD [])
+    rw [split_last cs hne, hbl] at this
+    simpa using (Bool.or_eq_false_iff.1 this.symm).1
+  obtain ⟨es', hpar⟩ := mkdirs_get [] cs.dropLast s.root res (by simp [hr, Node.get]) hbl' hnf
+  simp only [List.nil_append] at hpar
+  rw [h3]
+  exact get_set_same cs _ _ es' hne hpar
+
+theorem mem_makedirs (r : Bool) :
+    Agree (adm1 s.root cs (.makedirs p r)) s (Mem.step s (.makedirs p r))
+      (step1 s cs (.makedirs p r)) := by
+  simp only [Mem.step, step1]
+  cases hbl : blockedByFile s.root [] cs
+  · cases hg : s.root.get cs with
+    | none => left; rw [makedirs_new s p cs hc hv hd r hbl hg]; simp
+    | some n =>
+      cases n with
+      | file b =>
+        rw [makedirs_blocked s p cs hc hv hd r (Or.inr (isFileAt_of_file hg))]
+        cases r
+        · right
+          exact ⟨.DirectoryExpected, .DirectoryExists, rfl, by simp [fail], by simp [adm1, kindAt, hg]⟩
+        · left; simp
+      | dir es => left; rw [makedirs_dir s p cs hc hv hd r es hg]; cases r <;> simp
+  · left; rw [makedirs_blocked s p cs hc hv hd r (Or.inl hbl)]; simp
+
+end
+
+/-! ### merging into an empty directory -/
+
+theorem put_fresh (k : Name) (v : Node) (ds : Ents) (h : Ents.lookup k ds = none) :
+    Ents.put k v ds = ds ++ [(k, v)] := by
+  induction ds with
+  | nil => rfl
+  | cons e ds ih =>
+    obtain ⟨k', w⟩ := e
+    by_cases hk : k' = k
+    · simp [Ents.lookup, hk] at h
+    · simp only [Ents.lookup, hk, if_false] at h
+      simp [Ents.put, hk, ih h]
+
+theorem lookup_append_fresh (k k' : Name) (v : Node) (ds : Ents) (hne : k ≠ k') :
+    Ents.lookup k' (ds ++ [(k, v)]) = Ents.lookup k' ds := by
+  induction ds with
+  | nil => simp [Ents.lookup, hne]
+  | cons e ds ih =>
+    obtain ⟨k'', w⟩ := e
+    by_cases hk : k'' = k' <;> simp [Ents.lookup, hk, ih]
+
+mutual
+theorem mergeNode_none : ∀ (v : Node), v.wf = true → mergeNode v none = some v
+  | .file b, _ => by simp [mergeNode]
+  | .dir es, hw => by
+    simp only [Node.wf] at hw
+    simp [mergeNode, mergeEnts_fresh es [] hw (fun _ _ => rfl)]
+theorem mergeEnts_fresh : ∀ (es ds : Ents), entsWf es = true →
+    (∀ k, (Ents.lookup k es).isSome = true → Ents.lookup k ds = none) →
+    mergeEnts es ds = some (ds ++ es)
+  | [], ds, _, _ => by simp [mergeEnts]
+  | (k, v) :: es, ds, hw, hf => by
+    simp only [entsWf, Bool.and_eq_true] at hw
+    have hk : Ents.lookup k ds = none := hf k (by simp [Ents.lookup])
+    simp only [mergeEnts, hk, mergeNode_none v hw.1.2, put_fresh k v ds hk]
+    rw [mergeEnts_fresh es (ds ++ [(k, v)]) hw.2]
+    · simp
+    · intro k' hk'
+      have hne : k ≠ k' := by
+        rintro rfl
+        have := hw.1.1.2
+        simp_all
+      rw [lookup_append_fresh k k' v ds hne]
+      apply hf
+      simp [Ents.lookup, hne, hk']
+end
+
+section
+variable (s : State) (sp dp : Str) (a b : List Name) (hc : s.closed = false)
+  (hva : validate sp = .ok a) (hvb : validate dp = .ok b)
+  (hd : s.root.isDir = true) (hwf : s.root.wf = true)
+include hc hva hvb hd hwf
+
+theorem mem_copydir (c : Bool) :
+    Mem.step s (.copydir sp dp c) = step2 s a b (.copydir sp dp c) := by
+  simp only [Mem.step, Mem.copydir, vpath_open _ _ hc, hva, hvb, step2]
+  by_cases hpre : isPrefix a b = true
+  · simp [hpre]
+  · simp only [hpre, if_false, Bool.false_eq_true]
+    cases hgb : s.root.get b with
+    | none =>
+      cases c
+      · simp
+      · simp only [Bool.not_true, Bool.false_and, Bool.false_eq_true, if_false]
+        cases hga : s.root.get a with
+        | none => rfl
+        | some n =>
+          cases n with
+          | file x => rfl
+          | dir es =>
+            simp only
+            cases hbl : blockedByFile s.root [] b
+            · have hes : entsWf es = true := by simpa [Node.wf] using get_wf _ _ _ hwf hga
+              have hbne : b ≠ [] := by rintro rfl; simp [Node.get] at hgb
+              rw [makedirs_new s dp b hc hvb hd true hbl hgb]
+              simp [upd, mkdirs_new_get s dp b hc hvb hd hbl hgb,
+                mergeEnts_fresh es [] hes (fun _ _ => rfl), setAt, hbne]
+            · rw [makedirs_blocked s dp b hc hvb hd true (Or.inl hbl)]
+              simp [fail]
+    | some n =>
+      cases n with
+      | file x =>
+        simp only [Option.isNone_some, Bool.and_false, Bool.false_eq_true, if_false]
+        cases hga : s.root.get a with
+        | none => rfl
+        | some n =>
+          cases n with
+          | file y => rfl
+          | dir es =>
+            simp only
+            rw [makedirs_blocked s dp b hc hvb hd true (Or.inr (isFileAt_of_file hgb))]
+            simp [fail]
+      | dir ds =>
+        simp only [Option.isNone_some, Bool.and_false, Bool.false_eq_true, if_false]
+        cases hga : s.root.get a with
+        | none => rfl
+        | some n =>
+          cases n with
+          | file y => rfl
+          | dir es =>
+            simp only
+            rw [makedirs_dir s dp b hc hvb hd true ds hgb]
+            simp only [if_true, done, hgb]
+            cases mergeEnts es ds <;> rfl
+
+end
+
+/-! ### invalid paths -/
+
+theorem mem_step_invalid1 (s : State) (op : Op) (p : Str) (e : Err) (hc : s.closed = false)
+    (hp : op.paths = [p]) (hno : ∀ q m, op ≠ .openbin q m) (hv : validate p = .err e) :
+    Mem.step s op = fail s e := by
+  have he := QueryLemmas.validate_err_cases p e hv
+  cases op <;> simp only [Op.paths, List.cons.injEq, and_true, reduceCtorEq, and_false] at hp
+  all_goals first
+    | exact absurd rfl (hno _ _)
+    | (subst hp
+       rcases he with rfl | rfl <;>
+       simp [Mem.step, Mem.liftRes, Mem.exists_, Mem.isdir, Mem.isfile, Mem.listdir, Mem.isempty,
+         Mem.getinfo, Mem.readbytes, Mem.openbin, mode_rb, mode_wb, mode_ab, Mem.makedir, Mem.makedirs,
+         Mem.writebytes, Mem.appendbytes, Mem.create, Mem.touch, Mem.setinfo, Mem.remove, Mem.removedir,
+         Mem.removetree, vpath_open _ _ hc, hv, hc, fail])
+
+theorem mem_step_invalid_openbin (s : State) (p mode : Str) (m : Mode) (e : Err) (hc : s.closed = false)
+    (hm : parseBinMode mode = some m) (hv : validate p = .err e) :
+    Mem.step s (.openbin p mode) = fail s e := by
+  simp [Mem.step, Mem.openbin, hm, vpath_open _ _ hc, hv, fail]
+
+theorem mem_step_badmode (s : State) (p mode : Str) (hm : parseBinMode mode = none) :
+    Mem.step s (.openbin p mode) = fail s .ValueError := by
+  simp [Mem.step, Mem.openbin, hm, fail]
+
+theorem mem_step_invalid2 (s : State) (op : Op) (p q : Str) (e : Err) (hc : s.closed = false)
+    (hp : op.paths = [p, q])
+    (hv : validate p = .err e ∨ ((∃ a, validate p = .ok a) ∧ validate q = .err e)) :
+    Mem.step s op = fail s e := by
+  cases op <;> simp only [Op.paths, List.cons.injEq, and_true, reduceCtorEq, and_false] at hp
+  all_goals
+    obtain ⟨rfl, rfl⟩ := hp
+    rcases hv with hv | ⟨⟨a, ha⟩, hv⟩
+    · simp [Mem.step, Mem.move, Mem.copy, Mem.movedir, Mem.copydir, vpath_open _ _ hc, hv, fail]
+    · simp [Mem.step, Mem.move, Mem.copy, Mem.movedir, Mem.copydir, vpath_open _ _ hc, hv, ha, fail]
+
 end Fs.MemLemmas
